@@ -368,6 +368,7 @@ def Enc.stepBlocked (e : Enc) (w : Wip) (udpClosed : Bool) (utailEnd : Option Bo
 
 inductive DStop where
   | running | clean | trunc | illegal
+  | werr        -- a Write on the UDP socket failed: `flush()` returned the error, the goroutine left
 deriving DecidableEq, Repr, Inhabited
 
 inductive Variant where
@@ -407,6 +408,18 @@ def decIter (v : Variant) (tailErr fused : Bool) (s : Dec) : Dec :=
         | .asFound => s1                               -- re-reads the tail with the same window: no progress, no exit
     else s1
 
+/-- The UDP socket refuses the Write with index `j` (counted over the run): `flush()` stops at that datagram and
+returns the error; the caller records it (`ReceiveError`; not in the illegal-length branch, which ignores it) and
+the goroutine leaves. `s`: state before the iteration, `d`: the iteration's result had every Write succeeded. -/
+def Dec.cutWrite (d : Dec) (uwfail : Option Nat) (s : Dec) : Dec :=
+  match uwfail with
+  | some j =>
+    if s.out.length ≤ j ∧ j < d.out.length then
+      { d with out := d.out.take j, recv := s.recv + sumLen ((d.out.take j).drop s.out.length), stop := .werr,
+               rerr := d.rerr || d.stop != .illegal }
+    else d
+  | none => d
+
 /-! ## UDP relay: both goroutines -/
 
 structure UdpCase where
@@ -415,6 +428,7 @@ structure UdpCase where
   tchunks : List Bytes
   ttail : Tl
   tfused : Bool
+  uwfail : Option Nat := none   -- the UDP socket refuses the Write with this index
 deriving DecidableEq, Repr
 
 structure UdpSt where
@@ -466,7 +480,7 @@ def udpStepT (v : Variant) (c : UdpCase) (s : UdpSt) (hold : Bool) : UdpSt :=
   if s.dec.done || s.decHeld.isSome then s
   else if s.dec.pending.isEmpty && c.ttail == .hold && !s.cwT && decide (s.dec.buf.length < refill) then s
   else
-    let d := decIter v (c.ttail == .err) (c.tfused && c.ttail != .hold) s.dec
+    let d := (decIter v (c.ttail == .err) (c.tfused && c.ttail != .hold) s.dec).cutWrite c.uwfail s.dec
     if hold && decide (d.out.length > s.dec.out.length) then { s with decHeld := some d }
     else s.commitDec v d
 
@@ -504,6 +518,7 @@ structure UdpObs where
   tun : Bytes               -- everything written to the tunnel, concatenated
   udp : List Bytes          -- datagrams written to the UDP socket
   nread : Nat               -- datagrams the relay took from the UDP socket
+  wfU : Bool                -- the UDP socket refused a Write (environment fault)
   serr : Bool
   rerr : Bool
   sent : Nat
@@ -511,7 +526,7 @@ structure UdpObs where
 deriving DecidableEq, Repr
 
 def udpObs (s : UdpSt) : UdpObs :=
-  { ret := s.returned, tun := s.enc.flushes.flatten, udp := s.dec.out, nread := s.enc.nread,
+  { ret := s.returned, tun := s.enc.flushes.flatten, udp := s.dec.out, nread := s.enc.nread, wfU := s.dec.stop == .werr,
     serr := s.enc.serr, rerr := s.dec.rerr, sent := s.enc.sent, recv := s.dec.recv }
 
 /-- Observation when the local side is the asynchronous `mapping.UDPVirtualConn`: the local application
